@@ -20,6 +20,7 @@ from kfv.tensors import TV
 from kfv.tensors import _cmul
 from kfv.tensors import atoms_of_axis
 from kfv.tensors import axes_str
+from kfv.tensors import has_q
 from kfv.tensors import join_all
 from kfv.tensors import prod_axis
 from kfv.tensors import umul
@@ -142,6 +143,8 @@ def call(cb: Any, e: ast.Call, s: St, quiet: bool) -> tuple[Any, St]:
         lst = args[0] if args else Top('')
         dimn = kw(e, 'dim', 1)
         dv, s = cb.ev(dimn, s, quiet) if dimn is not None else (SV((), '0', 'num'), s)
+        if isinstance(lst, ListV) and lst.items and all(isinstance(x, TV) for x in lst.items) and any(has_q(x.axes) for x in lst.items):
+            return TV(('?',), lst.items[0].unit, lst.items[0].dtype, frozenset(), frozenset(), None, (), ''), s
         if isinstance(lst, ListV) and lst.items and all(isinstance(x, TV) for x in lst.items):
             ts = list(lst.items)
             n = len(ts[0].axes)
@@ -287,6 +290,21 @@ def it_objects(it: Any) -> dict:
 def tensor_method(cb: Any, e: ast.Call, x: TV, m: str, args: list, s: St, quiet: bool) -> tuple[Any, St]:
     it = cb.it
     f = cb.f
+    if has_q(x.axes):
+        # shape-unknown tensor (paths disagreed): only alias / dtype facts are tracked
+        if m in INPLACE or (m.endswith('_') and not m.startswith('_')):
+            if x.alias:
+                it.events.append(('inplace', f, e, (f'in-place method .{m}()', x)))
+            return x, s
+        if m in ('clone',):
+            return x.fresh(), s
+        if m in ('size', 'nelement', 'numel', 'element_size', 'dim'):
+            return (SV((), '?', 'size', '?') if (m != 'size' or e.args) else ShapeV(('?',))), s
+        if m in ('sum', 'item'):
+            return SV(x.unit, '?', 'num'), s
+        if m in VIEWS or m in ('contiguous', 'detach', 'permute', 'wait', 'cpu', 'cuda', 'float', 'half', 'bfloat16', 'double'):
+            return x, s
+        return replace(x, alias=frozenset()), s
     if m in INPLACE or (m.endswith('_') and not m.startswith('_') and m not in ('requires_grad_',)):
         if x.alias:
             it.events.append(('inplace', f, e, (f'in-place method .{m}()', x)))
@@ -362,6 +380,8 @@ def tensor_method(cb: Any, e: ast.Call, x: TV, m: str, args: list, s: St, quiet:
             axes = tuple(v.size if v.kind == 'size' else ('ONE' if v.text == '1' else f'n{v.text}') for v in a.items)
         elif isinstance(a, ListV) and len(a.items) == 1 and isinstance(a.items[0], SV):
             axes = (a.items[0].size,)
+        if axes is None and (isinstance(a, ShapeV) or isinstance(a, ListV)):
+            axes = ('?',)
         if axes is None:
             return it.top(f, e, f'{m} with {a}'), s
         const = {'new_ones': '1', 'new_zeros': '0'}.get(m)
@@ -393,6 +413,8 @@ def tensor_method(cb: Any, e: ast.Call, x: TV, m: str, args: list, s: St, quiet:
 def view(cb: Any, e: ast.Call, x: TV, args: list, s: St) -> tuple[Any, St]:
     it = cb.it
     f = cb.f
+    if has_q(x.axes) or any(isinstance(d, SV) and has_q(d.size) for d in args) or any(isinstance(d, ShapeV) and has_q(d.axes) for d in args):
+        return replace(x, axes=('?',), quals=frozenset(), src=''), s
     if len(args) == 1 and isinstance(args[0], ShapeV):
         tgt = args[0].axes
         if sorted(map(str, sum((atoms_of_axis(a) for a in tgt), []))) != sorted(map(str, sum((atoms_of_axis(a) for a in x.axes), []))):
